@@ -2,6 +2,7 @@ package props
 
 import (
 	"fmt"
+	"go/token"
 	"strings"
 
 	"gmslverif/fw"
@@ -206,6 +207,56 @@ func checkUntrustedCtor(c *fw.Ctx, short string, fn *ssa.Function) {
 			redStores = append(redStores, st)
 		}
 	}
+	// ... or calls of a function / method that performs that store: on every path (must) or on some (may)
+	marks := func(f *ssa.Function) (may, must bool) {
+		if f == nil || len(f.Blocks) == 0 {
+			return false, false
+		}
+		for _, st := range fw.FieldStores(f, "eventV1", "redacted") {
+			cst, ok := st.Val.(*ssa.Const)
+			if !ok || cst.Value == nil || cst.Value.String() != "true" {
+				continue
+			}
+			may = true
+			all := true
+			for _, r := range fw.Returns(f) {
+				if !st.Block().Dominates(r.Block()) {
+					all = false
+				}
+			}
+			if all {
+				must = true
+			}
+		}
+		return
+	}
+	var mayMarks []ssa.Instruction
+	for _, call := range fw.Calls(fn) {
+		var cands []*ssa.Function
+		if cal := call.Common().StaticCallee(); cal != nil {
+			cands = append(cands, cal)
+		} else if call.Common().IsInvoke() {
+			name := call.Common().Method.Name()
+			for _, f := range c.P.SrcFuncs() {
+				if f.Name() == name && f.Signature.Recv() != nil {
+					cands = append(cands, f)
+				}
+			}
+		}
+		anyMay, allMust := false, len(cands) > 0
+		for _, f := range cands {
+			may, must := marks(f)
+			anyMay = anyMay || may
+			allMust = allMust && must
+		}
+		ins, _ := call.(ssa.Instruction)
+		switch {
+		case allMust:
+			redStores = append(redStores, ins)
+		case anyMay:
+			mayMarks = append(mayMarks, ins)
+		}
+	}
 	redactRes := fw.IsResultOf(redactName, 0)
 	nret := 0
 	for _, r := range fw.Returns(fn) {
@@ -246,6 +297,10 @@ func checkUntrustedCtor(c *fw.Ctx, short string, fn *ssa.Function) {
 		if fw.PathAvoiding(failBlock, redStores, r) {
 			if reparse == fw.Unknown {
 				c.Undecided(rule, construct, "the value returned after a content-hash mismatch could not be traced")
+				continue
+			}
+			if len(mayMarks) > 0 && !fw.PathAvoiding(failBlock, append(append([]ssa.Instruction{}, redStores...), mayMarks...), r) {
+				c.Undecided(rule, construct, "the event is marked redacted inside a call that may or may not do so on every path")
 				continue
 			}
 			c.Fail(rule, construct, c.P.Pos(fw.InstrPos(r)), "after a content-hash mismatch the parsed event can be returned without having been marked redacted (no `redacted = true` on the path from the mismatch to this return)")
@@ -308,6 +363,46 @@ func checkUntrustedCtor(c *fw.Ctx, short string, fn *ssa.Function) {
 	same, raw, other := 0, 0, 0
 	for _, u := range um {
 		a, afr := rootOf(u.Call.Common().Args[0], u.Fr)
+		// a second decode, of the redaction, into the struct that already holds the tampered
+		// event: encoding/json leaves fields of absent keys untouched, so what redaction removed
+		// stays observable (Redacts(), sticky durations, ...)
+		if fw.Derives3In(u.Call.Common().Args[0], u.Fr, fw.FlowSpec{IsSource: fw.IsResultOf(redactName, 0), Through: fw.ThroughNames(map[string][]int{"gmsl.CanonicalJSONAssumeValid": {0}, "gmsl.CanonicalJSON": {0}}), All: true}) == fw.Yes {
+			// the destinations of the first decode(s): the event under construction
+			populated := func(d ssa.Value) bool {
+				d, _ = rootOf(fw.Unwrap(d), u.Fr)
+				d = fw.Unwrap(d)
+				for _, u2 := range um {
+					if u2.Call == u.Call {
+						continue
+					}
+					d2, _ := rootOf(fw.Unwrap(u2.Call.Common().Args[1]), u2.Fr)
+					d2 = fw.Unwrap(d2)
+					if d2 == d {
+						return true
+					}
+					// `&res` and `res` (a load of the same variable)
+					if ld, ok := d2.(*ssa.UnOp); ok && ld.Op == token.MUL && ld.X == d {
+						return true
+					}
+					if ld, ok := d.(*ssa.UnOp); ok && ld.Op == token.MUL && ld.X == d2 {
+						return true
+					}
+					// `&res` where res holds the event decoded into before
+					if al, ok := d.(*ssa.Alloc); ok {
+						for _, ref := range *al.Referrers() {
+							if st, isSt := ref.(*ssa.Store); isSt && st.Addr == ssa.Value(al) && fw.Unwrap(st.Val) == d2 {
+								return true
+							}
+						}
+					}
+				}
+				return false
+			}
+			if populated(u.Call.Common().Args[1]) {
+				c.Fail(rule2, short+": the redacted form is parsed into a fresh event", c.P.Pos(u.Call.Pos()), "the redaction is decoded with json.Unmarshal into the event that was already populated from the tampered JSON: fields whose keys the redaction removed keep their tampered values")
+				continue
+			}
+		}
 		switch {
 		case a == preRoot:
 			same++
@@ -315,6 +410,17 @@ func checkUntrustedCtor(c *fw.Ctx, short string, fn *ssa.Function) {
 			raw++ // the bytes as received, before the keys were stripped
 		default:
 			other++
+		}
+	}
+	// the redaction that replaces a tampered event is computed from the same (stripped) bytes
+	for _, rc := range deepCallsTo(outer, redactName) {
+		args := rc.Call.Common().Args
+		if len(args) == 0 {
+			continue
+		}
+		a, afr := rootOf(args[len(args)-1], rc.Fr)
+		if afr == nil && isParam(a, outer, 0) {
+			c.Fail(rule2, short+": the redaction is computed from the stripped bytes", c.P.Pos(rc.Call.Pos()), "RedactEventJSON is applied to the JSON as received, not to the stripped bytes that were parsed, hashed and stored: keys added by other servers survive into the redacted form, and the comparison with the stored JSON always differs")
 		}
 	}
 	construct2 := short + ": struct fields are decoded from the stripped bytes"
